@@ -427,6 +427,13 @@ def h_batch_request(ob):
                 raise Violation('batch-element-or-order-lost', (w, b2))
         if not same_json(_wire(env, b2), w):
             raise Violation('not-a-fix-point', w)
+        # comparing the two batches is a read-only operation: both serialise as before afterwards
+        # (only batches whose ids are all of one type: the library orders by id to compare, which is undefined across types / null)
+        if len(set(ob['els'])) == 1 and ob['els'][0] != 'notif':
+            if not (b == b2) or (b != b2):
+                raise Violation('round-tripped-batch-not-equal', w)
+            if not same_json(_wire(env, b), w) or not same_json(_wire(env, b2), w):
+                raise Violation('comparison-reordered-the-batch', w)
         return [len(b2)]
 
     return run
@@ -496,6 +503,12 @@ def h_batch_response(ob):
                 _check_error_back(r2.error, e[0], e[1], None, 'absent', base)
         if not same_json(_wire(env, b2), w):
             raise Violation('not-a-fix-point', w)
+        if not same_json(_wire(env, b), w):
+            raise Violation('comparison-reordered-the-batch', w)
+        if 'nullid' not in ob['els']:
+            b == b2          # noqa: B015  (comparing is read-only; the result itself depends on error equality, not asserted here)
+            if not same_json(_wire(env, b), w) or not same_json(_wire(env, b2), w):
+                raise Violation('comparison-reordered-the-batch', w)
         return [len(b2)]
 
     return run
